@@ -169,7 +169,7 @@ pub fn gen(tier: &str, seed: u64, out: &mut dyn FnMut(Value)) {
         }
     }
     // random larger ones
-    let n = if tier == "thorough" { 60000 } else { 4000 };
+    let n = if tier == "thorough" { 300000 } else { 16000 };
     for _ in 0..n {
         let d = 2 + rng.below(4);
         let f = random_form(&mut rng, d);
